@@ -244,7 +244,12 @@ def kitchen_sink_docs(c1: str = "DLC1", c2: str = "DLC2") -> List[str]:
                                         ni_gnrs=["GNR"]))
     ev.patterns = og.ecu_variant_patterns([[og.matching_parameter("5", "read", out_snref="did")]])
     ev.dops.append(og.dop("EV.u8", "ev_u8", og.dct_standard("A_UINT32", 8)))
-    return [cs, css, og.container(c1, c1, [prot, bv, ev]), og.container(c2, c2, [esd])]
+    # a variant in the other container: whichever document comes first, a layer is resolved before a layer it inherits from
+    # or is imported by
+    ev2 = og.Layer("ECU-VARIANT", "EV2", "EV2")
+    ev2.parent_refs.append(og.parent_ref("BV", "BASE-VARIANT", c1, ni_diag_comms=["read"]))
+    ev2.dops.append(og.dop("EV2.u8", "ev2_u8", og.dct_standard("A_UINT32", 8)))
+    return [cs, css, og.container(c1, c1, [prot, bv, ev]), og.container(c2, c2, [esd, ev2])]
 
 
 def behaviour(db: Any) -> str:
